@@ -178,20 +178,29 @@ def parse_errorcodes(path):
 
 
 def parse_packet(path):
-    src = strip_comments(open(path).read())
-    m = re.findall(r"const\s+U24_MAX\s*:\s*usize\s*=\s*([0-9_]+)\s*;", src)
-    if len(m) != 1:
-        fail("packet.rs: expected exactly one `const U24_MAX: usize = <literal>;`")
-    u24 = int(m[0].replace("_", ""))
-    t = re.findall(r"tag\(&\[\s*(0x[0-9a-fA-F]+|\d+)\s*,\s*(0x[0-9a-fA-F]+|\d+)\s*,\s*(0x[0-9a-fA-F]+|\d+)\s*\]\)", src)
-    if len(t) > 1:
-        fail("packet.rs: more than one literal 3-byte tag(&[..])")
-    if len(t) == 1:
-        tag, src_of_tag = [int(x, 0) for x in t[0]], "literal"
+    """U24_MAX and the literal fragment tag; looked for in packet.rs first, then in any other file of
+    src/ (a constant that moved to another module is still the same constant)"""
+    srcdir = os.path.dirname(path)
+    files = [path] + sorted(os.path.join(dp, f) for dp, _, fn in os.walk(srcdir) for f in fn
+                            if f.endswith(".rs") and os.path.join(dp, f) != path)
+    consts, tags = [], []
+    for f in files:
+        if not os.path.exists(f):
+            continue
+        src = strip_comments(open(f).read())
+        consts += re.findall(r"const\s+U24_MAX\s*:\s*\w+\s*=\s*([0-9_]+|0[xX][0-9a-fA-F_]+)\s*;", src)
+        tags += re.findall(r"tag\(&\[\s*(0x[0-9a-fA-F]+|\d+)\s*,\s*(0x[0-9a-fA-F]+|\d+)\s*,\s*(0x[0-9a-fA-F]+|\d+)\s*\]\)", src)
+    if len(consts) != 1:
+        fail("expected exactly one `const U24_MAX: <int type> = <literal>;` in src/ (found %d)" % len(consts))
+    u24 = int(consts[0].replace("_", ""), 0)
+    if len(tags) > 1:
+        fail("more than one literal 3-byte tag(&[..]) in src/")
+    if len(tags) == 1:
+        tag, src_of_tag = [int(x, 0) for x in tags[0]], "literal"
     else:
         # the code recognises a maximal fragment without a literal tag (e.g. by comparing the decoded
         # length with U24_MAX): there is no second constant that could disagree with U24_MAX
-        tag, src_of_tag = [u24 & 255, (u24 >> 8) & 255, (u24 >> 16) & 255], "derived from U24_MAX (no literal tag in packet.rs)"
+        tag, src_of_tag = [u24 & 255, (u24 >> 8) & 255, (u24 >> 16) & 255], "derived from U24_MAX (no literal tag in src/)"
     return u24, tag, src_of_tag
 
 
